@@ -250,6 +250,34 @@ def groups_equal(a, b):
     return True
 
 
+def max_quote_run(obj):
+    """longest run of consecutive ' or of consecutive " in any string of a request"""
+    import re
+    best = 0
+    if isinstance(obj, str):
+        for m in re.finditer(r"'+|\"+", obj):
+            best = max(best, len(m.group(0)))
+    elif isinstance(obj, dict):
+        for k, v in obj.items():
+            best = max(best, max_quote_run(k), max_quote_run(v))
+    elif isinstance(obj, (list, tuple)):
+        for v in obj:
+            best = max(best, max_quote_run(v))
+    return best
+
+
+def quote_run_cases():
+    """deterministic boundary cases: runs of 255 and 256 (and more) identical quote characters in a label value, a process
+    argument and a metadata string"""
+    out = []
+    for q in ('"', "'"):
+        for n in (255, 256, 300, 1000):
+            v = "a" + q * n + "b"
+            out.append(("launch", {"op": "launch", "calls": [["label", ["k", v]]]}, {"processes": [], "labels": [["k", v]], "slices": []}))
+            out.append(("store", {"op": "store", "metadata": tomlw.tagged({"s": v})}, {"s": v}))
+    return out
+
+
 def run_doc(mon, base, idx, kind, req, intent, sh):
     path = os.path.join(base, "%s-%d.toml" % (kind, idx))
     req = dict(req)
@@ -263,6 +291,15 @@ def run_doc(mon, base, idx, kind, req, intent, sh):
     sh.evaluations += 1
     if "input_rejected" in rep:
         sh.count("inputs_rejected_by_constructors")
+        return
+    if "panic" in rep:
+        # no text was written at all. A run of >= 256 quote characters is the listed finding (arithmetic overflow in the serialiser's
+        # quote-run counter when built with overflow checks, i.e. every dev-profile build); any other panic is reported under its own signature
+        run = max_quote_run(case["request"])
+        sh.violation("writer-panic:quote-run-256" if run >= 256 and "overflow" in rep["panic"] else "writer-panic",
+                     "writing a %s panicked instead of producing TOML (%s); longest run of one quote character in the payload: %d" % (kind, rep["panic"][:120], run), case)
+        if os.path.exists(path):
+            os.unlink(path)
         return
     if kind == "launch" and any(p.get("wd") == "<non-utf8>" for p in intent["processes"]):
         # TOML text cannot hold such a path: the only acceptable outcome is a reported error (never a silently altered directory)
@@ -465,6 +502,9 @@ def shard_run(arg):
     os.makedirs(base, exist_ok=True)
     kinds = ["launch", "launch", "build_plan", "build_plan", "layer_toml", "store", "package", "execd"]
     try:
+        if idxs and idxs[0] == 0:
+            for j, (kind, req, intent) in enumerate(quote_run_cases()):
+                run_doc(mon, base, 10 ** 9 + j, kind, req, intent, sh)
         for idx in idxs:
             r = vp.rng(seed, "c07", idx)
             kind = kinds[idx % len(kinds)]
@@ -489,7 +529,7 @@ def shard_run(arg):
 
 def run(tier, seed, work):
     res = vp.Result("C07", tier, seed, "exploration")
-    n = 16000 if tier == "quick" else 120000
+    n = 16000 if tier == "quick" else 480000
     for d in vp.pmap(shard_run, [(seed, s, work) for s in vp.split(range(n), vp.NCPU)]):
         res.merge(d)
     res.rule = ("evaluations = documents written by libcnb and read by tomllib + a spec reader. distinct_nontrivial = distinct (document type, optional parts present, "
